@@ -329,6 +329,13 @@ func c14Case(c *core.Ctx, id string) {
 	r := g.R
 	nsteps := c.N(10, 20)
 	twin := pj.NewSession(filepath.Join(base, "b")) // same tree, never collected
+	// a third of the runs keep one long-lived Project per twin and Reload() it before each build (`dawn watch`), while the
+	// collections come from fresh loads (`dawn gc` in another terminal)
+	var tlive *pj.Live
+	if hashStr(id)%3 == 0 {
+		e.Live, tlive = &pj.Live{}, &pj.Live{}
+		c.Count("runs_on_long_lived_projects", 1)
+	}
 	mirror := func() {
 		// bring the twin's sources and build files in line with the edited tree (not its build state)
 		e.P.WriteAll(twin.Root)
@@ -370,7 +377,13 @@ func c14Case(c *core.Ctx, id string) {
 		}
 		twin.SetFailing(failing)
 		tfrom := twin.LogLen()
-		tres := pj.Build(pj.BuildReq{Root: twin.Root, Target: target, Args: e.P.Args})
+		treq := pj.BuildReq{Root: twin.Root, Target: target, Args: e.P.Args}
+		var tres pj.BuildRes
+		if tlive != nil {
+			tres = tlive.Build(treq)
+		} else {
+			tres = pj.Build(treq)
+		}
 		var texec []string
 		for _, le := range twin.ReadLog(tfrom) {
 			if le.Kind == "S" {
